@@ -3,6 +3,5 @@
 (* events prints its event sequence as one JSON line.                       *)
 EXTENDS Raft, Json
 CONSTANT Depth
-\* (a behaviour that runs out of enabled actions before Depth - the model bounds are exhausted - is printed too)
-Dump == (Len(hist) = Depth \/ (Len(hist) >= 20 /\ ~ENABLED Next)) => PrintT(<<"SCHED", ToJson(hist)>>)
+Dump == (Len(hist) = Depth) => PrintT(<<"SCHED", ToJson(hist)>>)
 =============================================================================
